@@ -15,7 +15,10 @@ RULE = (
     "valid set and arbitrary strings of length 0/1/2, 1-2000 orders created in tight loops under the real and the "
     "simulated clock (and 2-16 real threads in a bounded stress sub-check); references are replayed as real "
     "CurrentOrders resources through process_current_orders of a second framework instance with the same "
-    "strategies. Non-trivial: non-ASCII or > 32 character names, or >= 100 orders in one loop, or an invalid "
+    "strategies. Sub-check sim_runs: whole simulation runs over 2-3 recordings with the same publish times (played "
+    "one after the other or as an event group), orders created at the same simulated instants in each; every "
+    "reference of the run is distinct and valid (non-trivial: orders created at the same instant in two markets). "
+    "Non-trivial: non-ASCII or > 32 character names, or >= 100 orders in one loop, or an invalid "
     "separator; distinct = distinct case JSON."
 )
 ASSUMPTIONS = [
@@ -246,6 +249,76 @@ def check(c):
     return nontrivial, classes
 
 
+# ---- whole simulation runs: several recordings played one after the other (or as an event group) ----------------
+
+
+@st.composite
+def sim_case(draw, tier="quick"):
+    """2-3 recordings with the SAME publish times (separate events played one after the other, or one event group):
+    the simulated clock runs over the same instants again for each recording, orders are created at the same
+    instants in each, some markets create further orders later.  Every order of the run - replacements included -
+    carries its own reference."""
+    import copy
+    from .. import gen, world
+
+    nm = draw(st.integers(2, 3))
+    grouped = draw(st.integers(0, 2)) == 0
+    spec0 = world.default_market(0, 2, event=0, bsp_market=False)
+    n = draw(st.integers(3, 8 if tier == "quick" else 16))
+    feats = {"remove": 0, "suspend": 1, "inplay": 1, "books": 3, "trades": 3, "max_dt_ms": 5000}
+    steps, states = draw(gen.timeline(spec0, n, feats))
+    kw = dict(kinds=("LIMIT",), sp=False, sizes="level")
+    common = draw(gen.script(spec0, states, mi=0, max_entries=3, max_ops=3, place_kw=kw))
+    markets, script = [], []
+    for mi in range(nm):
+        spec = world.default_market(mi, 2, event=0 if grouped else mi, bsp_market=False)
+        spec["steps"] = copy.deepcopy(steps)
+        spec["start_pt"] = world.BASE_PT + draw(st.sampled_from([0, 0, 0, 1000]))
+        markets.append(spec)
+        for e in common:
+            script.append(dict(copy.deepcopy(e), m=mi))
+        if draw(st.booleans()):
+            script += draw(gen.script(spec, states, mi=mi, max_entries=2, max_ops=2, place_kw=kw))
+    return {"sim": True, "markets": markets, "event_processing": grouped,
+            "strategies": [gen.strategy_spec(draw(st.sampled_from(["A", "strategy-with-a-rather-long-name"])), script=script)],
+            "clients": [{"min_bet_validation": False}], "config": {}}
+
+
+def check_sim(c):
+    from ..common import crash_violation
+
+    lb = simlab.run_scenario(c, snapshot_cbs=())
+    if lb.error is not None:
+        raise crash_violation(lb.error, c, "run-aborted")
+    orders = [o for o in lb.all_orders()]
+    refs = [o.customer_order_ref for o in orders]
+    for o, ref in zip(orders, refs):
+        if len(ref) > 32:
+            raise Violation("reference-too-long", ("simulation-run",), "len %d: %r" % (len(ref), ref), c)
+        bad = set(ref) - VALID
+        if bad:
+            raise Violation("reference-invalid-characters", ("simulation-run",), "characters %r in %r" % (bad, ref), c)
+    if len(set(refs)) != len(refs):
+        dup = sorted({r for r in refs if refs.count(r) > 1})[:3]
+        where = [(o.market_id, o.selection_id, str(o.date_time_created)) for o in orders if o.customer_order_ref == dup[0]]
+        raise Violation("reference-not-unique", ("simulation-run", "event-group" if c.get("event_processing") else "sequential"),
+                        "%d orders in the run, %d distinct references; %r is carried by %s" % (len(refs), len(set(refs)), dup[0], where), c)
+    if len({o.id for o in orders}) != len(orders):
+        raise Violation("order-id-not-unique", ("simulation-run",), "duplicate order ids in one run", c)
+    classes = {"simulation-run", "event-group" if c.get("event_processing") else "sequential-recordings"}
+    per_market = {}
+    for o in orders:
+        per_market.setdefault(o.market_id, set()).add(str(o.date_time_created))
+    shared = [m for m in per_market if any(per_market[m] & per_market[m2] for m2 in per_market if m2 != m)]
+    if shared:
+        classes.add("orders-created-at-the-same-simulated-instant-in-different-markets")
+    return len(orders) >= 2 and bool(shared), classes
+
+
+def sub_sim(col, budget, seed, tier, shard, nshards):
+    run_given(col, sim_case(tier), check_sim, budget, seed, tier, "sim_runs")
+
+
 def sub_given(col, budget, seed, tier, shard, nshards):
     run_given(col, case(tier), check, budget, seed, tier, "references")
 
@@ -280,10 +353,13 @@ def sub_threads(col, budget, seed, tier, shard, nshards):
 def subchecks(tier):
     q = tier == "quick"
     return [SubCheck("references", sub_given, 2400 if q else 60000),
-            SubCheck("threads", sub_threads, 4000 if q else 50000)]
+            SubCheck("threads", sub_threads, 4000 if q else 50000), SubCheck("sim_runs", sub_sim, 600 if q else 20000)]
 
 
 def replay(c, sub=None):
     if "threads" in c:
+        return
+    if c.get("sim"):
+        check_sim(c)
         return
     check(c)
